@@ -8,6 +8,7 @@ import H3.Props.C12
 import H3.Props.C14
 import H3.Lemmas.Setup
 import H3.Lemmas.SendCompletion
+import H3.Lemmas.ConnClose
 /-! # C06 — no peer behaviour makes h3 panic or leaves a call pending for ever
 
 Property theorems only; vocabulary and proofs are in `H3/Lemmas/C06{Frame,Req,Run,Ctl}.lean`.
@@ -376,39 +377,97 @@ example : PrefixString.decode? 8 [0x82, 0xff] = some (.err .unexpectedEnd) := by
 
 /-! ## 6. Connection close -/
 
-/-- **When the connection has failed or was closed.**  What the models state (the *gap* to the
-    property text: in the models a closed connection reaches a stream read as the transport's
-    error answer, which `H3.FS` has as `reset`; that SimQuic/Quinn wake every task parked on a
-    stream when the peer closes or the connection times out is transport behaviour, observed by
-    the `adv` run, not modelled):
-    * `poll_control` with the connection error recorded returns it at once, whatever is queued
-      on the control stream, the unidirectional streams and the grease stream — and so does the
-      role's driver poll: neither is ever `Pending` again;
-    * the error cell (C05, the code after 57afec5): whatever the streams and the driver did, a
-      stored error — a peer close `quic (appClose code)` and a timeout `quic timeout` are such
-      errors — is never lost between tasks: a parked driver has been woken, and its next poll
-      returns the error (converted) however the stream handles' steps interleave;
-    * a request stream whose transport answers with an error next (`reset`): the call the
-      documented pattern makes completes — not `Pending`, not a panic — in every configuration
-      the pattern can reach; and once the cell holds an error every connection-level failure of
-      a call returns the stored one (first wins). -/
-theorem C06_connection_close_partial :
-    (∀ (blocking : Bool) (cfg : Control.Cfg) (c : Control.Conn) (gs : Control.Grease) (ins : List Control.In)
+/-- **When the connection has failed or was closed** (full strength: the connection error is an
+    event of the model).  `H3.ConnClose` carries the event additively: the frame layer passes on
+    whatever `StreamErrorIncoming` the transport answers, so `FS.Ev.reset c` / `Out.errQuic c` stand
+    for "the transport answered `Err(e)`", `c` naming `e`; `TErr.code` names every variant — the
+    identity on RESET_STREAM codes (`< 2^62`), numbers from `2^62` on for `ConnectionErrorIncoming`
+    (`EvC.connErr q`: the peer closed the connection, it timed out, it failed) and `Unknown`.
+    1. The naming loses nothing, and a connection error is never mistaken for a reset.
+    2. Frame layer: with `connErr q` the transport's next answer (the end of the stream not yet
+       read), `poll_next` and `poll_data` answer `Err(Quic(connection error))` AT ONCE — before
+       anything buffered is decoded — and leave state and script alone: the error stays the
+       transport's answer to every later read (sticky), as SimQuic and Quinn behave.
+    3. Request streams, ANY state (whatever was called before, whatever it answered): with `connErr
+       q` the transport's next answer, `recv_data`, `recv_trailers` and (as the first call) the
+       message head do not answer `Pending` and do not panic; while the end of the stream has not
+       been read they answer exactly the connection error (`recv_trailers` from a state with a DATA
+       payload outstanding answers the stream error of its guard), the state is untouched, so every
+       later call completes the same way.
+    4. What the caller is handed: `handle_quic_stream_error` stores the error in the connection's
+       cell unless one is there (first wins) and returns `StreamError::ConnectionError` of the error
+       IN the cell; a RESET_STREAM code still yields `RemoteTerminate` and leaves the cell alone.
+    5. The driver: `poll_control` with the error recorded returns it at once whatever is queued, and
+       so does the role's driver poll; the error cell never loses a stored error — a peer close
+       `quic (appClose code)` and a timeout `quic timeout` are such errors — and a parked driver's
+       next poll returns it however the stream handles' steps interleave (`C05_no_lost_wakeup`);
+       once the cell holds an error every connection-level failure of a call returns the stored one.
+    6. The send side: a send call (`send_request` waiting for stream credit included) that is
+       pending returns the connection error as soon as the transport answers it
+       (`C06_send_completion`).
+    What remains the transport's: that it wakes every task parked on one of its calls when the
+    connection fails (SimQuic does, Quinn does; `C06_setup_pending_only_on_transport` and the frame
+    layer's `pend` facts say h3 answers `Pending` only from a transport call that answered
+    `Pending`) — the `adv`, `flt` and `wt` runs observe it at executor quiescence (R-06). -/
+theorem C06_connection_close :
+    ((∀ e : ConnClose.TErr, (∀ c, e = .terminated c → c < 2 ^ 62) → ConnClose.TErr.ofCode e.code = e) ∧
+      ∀ q, 2 ^ 62 ≤ ConnClose.TErr.code (.conn q)) ∧
+    (∀ (s : FS.St) (q : ErrCell.QErr) (r : List ConnClose.EvC), s.eos = false →
+      (s.remaining = 0 → FS.pollNext FS.frameDec s (ConnClose.lower (.connErr q :: r)) =
+        (.errQuic (ConnClose.TErr.code (.conn q)), s, ConnClose.lower (.connErr q :: r))) ∧
+      (s.remaining ≠ 0 → FS.pollData (F := H3.Frame.Frame) (E := H3.Frame.FrameErr) s (ConnClose.lower (.connErr q :: r)) =
+        (.errQuic (ConnClose.TErr.code (.conn q)), s, ConnClose.lower (.connErr q :: r)))) ∧
+    (∀ (role : Role) (H : Hdr) (N : Nat) (st : RSt) (q : ErrCell.QErr) (r : List ConnClose.EvC),
+      st.src.2 = ConnClose.lower (.connErr q :: r) →
+      ((pollRecvData fsSrc N st).1 ≠ .pending ∧ (pollRecvData fsSrc N st).1 ≠ .panic) ∧
+      ((pollRecvTrailersG fsSrc H st).1 ≠ .pending ∧ (pollRecvTrailersG fsSrc H st).1 ≠ .panic) ∧
+      (st.src.1.remaining = 0 →
+        (pollHead role fsSrc H st).1 ≠ .pending ∧ (pollHead role fsSrc H st).1 ≠ .panic) ∧
+      (st.src.1.eos = false →
+        pollRecvData fsSrc (N + 1) st = (.errReset (ConnClose.TErr.code (.conn q)), st) ∧
+        (st.src.1.remaining = 0 → st.trailers = none →
+          pollRecvTrailersG fsSrc H st = (.errReset (ConnClose.TErr.code (.conn q)), st)) ∧
+        (st.src.1.remaining = 0 →
+          pollHead role fsSrc H st = (.errReset (ConnClose.TErr.code (.conn q)), st)))) ∧
+    ((∀ (cell : Option ErrCell.Err) (q : ErrCell.QErr),
+        ConnClose.handleQuic cell (ConnClose.TErr.ofCode (ConnClose.TErr.code (.conn q))) =
+          (.connection (ErrCell.convert (cell.getD (.quic q))), some (cell.getD (.quic q)))) ∧
+      (∀ (cell : Option ErrCell.Err) (c : Nat), c < 2 ^ 62 →
+        ConnClose.handleQuic cell (ConnClose.TErr.ofCode c) = (.remoteTerminate c, cell))) ∧
+    ((∀ (blocking : Bool) (cfg : Control.Cfg) (c : Control.Conn) (gs : Control.Grease) (ins : List Control.In)
         (g : List Control.GAns) (e : Nat), c.err = some e →
       (Control.pollControl blocking cfg c gs ins g).res = .err e ∧
       ∀ fuel, (Control.drivePoll blocking cfg (fuel + 1) c gs ins g).res = some e) ∧
-    (∀ (todo : List (List ErrCell.Err)) (sched : List ErrCell.TaskId) (e : ErrCell.Err),
+     (∀ (todo : List (List ErrCell.Err)) (sched : List ErrCell.TaskId) (e : ErrCell.Err),
       let s := ErrCell.run true (ErrCell.init todo) sched
       ErrCell.lostWakeup s = false ∧
       (s.cell = some e → s.pc = .idle → ∀ mid₁ mid₂ : List Nat,
         let s' := ErrCell.run true s
           ([.drv .poll] ++ mid₁.map .str ++ [.drv .pce] ++ mid₂.map .str ++ [.drv .pce])
         s'.handled = some (ErrCell.convert e) ∧ ∃ rest, s'.drets = ErrCell.convert e :: rest)) ∧
-    (∀ (role : Role) (H : Hdr) (N : Nat) (ph : Phase) (st : RSt), DocReach role H N ph st →
-      (∃ x r, st.src.2 = .reset x :: r) →
-      (pollPhase role H N ph st).1 ≠ .pending ∧ (pollPhase role H N ph st).1 ≠ .panic) ∧
-    (∀ (st : RSt) (c code : Nat), st.env.cell = some c → connErr st code = (.errConn c, st)) := by
-  refine ⟨?_, ?_, ?_, ?_⟩
+     (∀ (st : RSt) (c code : Nat), st.env.cell = some c → connErr st code = (.errConn c, st))) ∧
+    (∀ (c : WriteBuf.SendCall) (_ : ∀ w ∈ c.writes, w.WF) (script : List WriteBuf.Acc) (out : List Nat)
+        (q : Nat) (more : List WriteBuf.Acc),
+      WriteBuf.callE c script = .pending out →
+      WriteBuf.callE c (script ++ .err (.conn q) :: more) = .failed out (.conn q)) := by
+  refine ⟨⟨ConnClose.ofCode_code, ConnClose.conn_code_ge⟩, ?_, ?_, ⟨?_, ?_⟩, ⟨?_, ?_, ?_⟩, ?_⟩
+  · intro s q r heos
+    rw [ConnClose.lower_connErr]
+    exact ⟨fun h0 => pollNext_reset FS.frameDec s _ _ h0 heos, fun h0 => pollData_reset s _ _ h0 heos⟩
+  · intro role H N st q r hs
+    have hE : AtEnd st.src := ConnClose.atEnd_closed st.src q r hs
+    refine ⟨⟨pollRecvData_atEnd N st hE, pollRecvData_never_panics N st⟩,
+      ⟨pollRecvTrailersG_atEnd H st hE, pollRecvTrailersG_never_panics H st⟩,
+      fun h0 => ⟨pollHead_atEnd role H st h0 hE, pollHead_never_panics role H st h0⟩, fun heos => ?_⟩
+    rw [ConnClose.lower_connErr] at hs
+    exact calls_on_error role H N st _ _ hs heos
+  · intro cell q
+    rw [ConnClose.ofCode_code _ (fun c h => by cases h)]
+    cases cell <;> rfl
+  · intro cell c hc
+    have : ConnClose.TErr.ofCode c = .terminated c := ConnClose.ofCode_code (.terminated c) (fun c' h => by cases h; exact hc)
+    rw [this]
+    rfl
   · intro blocking cfg c gs ins g e he
     have h1 : (Control.pollControl blocking cfg c gs ins g).res = .err e := by
       cases ins <;> simp [Control.pollControl, he]
@@ -420,17 +479,33 @@ theorem C06_connection_close_partial :
     refine ⟨h.1, fun hc hp mid₁ mid₂ => ?_⟩
     obtain ⟨h1, _, _, h4⟩ := h.2.2.2 e hc hp mid₁ mid₂
     exact ⟨h1, h4⟩
-  · intro role H N ph st h hr
-    have hS := pollPhase_safe role H N ph st (docReach_inv h).1 (docReach_inv h).2
-    exact ⟨(hS.atEnd (Or.inr hr)).1, hS.noPanic⟩
   · intro st c code hc
     simp [connErr, hc]
+  · intro c hwf script out q more hp
+    have h := WriteBuf.stagesE_ok c.stages (WriteBuf.stages_wf c hwf) [] script
+    have hcall : WriteBuf.callE c script = WriteBuf.stagesE c.stages [] script := rfl
+    rw [← hcall, hp] at h
+    exact h.2.2.2 (.conn q) more
 
 example : (Control.pollControl false { role := .server } { control := true, err := some 0x0100 } {}
     [.item (.frame (.settings []))] []).res = .err 0x0100 := by decide
 example : (pollPhase .server okHdr 9 .head (initSt [.reset 0x10c])).1 = .errReset 0x10c := by decide +kernel
 example : ErrCell.convert (.quic (.appClose 0x100)) = .remote (.appClose 0x100) ∧
     ErrCell.convert (.quic .timeout) = .timeout := by decide
+-- the peer closes the connection (application close 0x100) while `recv_data` waits inside DATA(3): the call
+-- pending on `[chunk …]` completes with the connection error once `connErr` is the transport's answer; the
+-- chunk the transport still had queued BEHIND the close is never read
+example : (pollRecvData fsSrc 9 (pollHead .client fsSrc okHdr
+      (initSt (ConnClose.lower [.chunk [0x01, 0x01, 0xaa, 0x00, 0x03, 0xb1]]))).2).1 = .data [0xb1] ∧
+    (pollRecvData fsSrc 9 (pollRecvData fsSrc 9 (pollHead .client fsSrc okHdr
+      (initSt (ConnClose.lower [.chunk [0x01, 0x01, 0xaa, 0x00, 0x03, 0xb1]]))).2).2).1 = .pending ∧
+    (pollRecvData fsSrc 9 (pollRecvData fsSrc 9 (pollHead .client fsSrc okHdr
+      (initSt (ConnClose.lower [.chunk [0x01, 0x01, 0xaa, 0x00, 0x03, 0xb1], .connErr (.appClose 0x100), .chunk [0xb2]]))).2).2).1 =
+      .errReset (ConnClose.TErr.code (.conn (.appClose 0x100))) := by decide +kernel
+example : ConnClose.handleQuic none (ConnClose.TErr.ofCode (ConnClose.TErr.code (.conn .timeout))) =
+    (.connection .timeout, some (.quic .timeout)) := by decide +kernel
+example : ConnClose.handleQuic (some (.internal 0x0105 0)) (.conn (.appClose 7)) =
+    (.connection (.localApp 0x0105 0), some (.internal 0x0105 0)) := by decide
 
 /-! ## 7. The send side under the peer's flow control -/
 
